@@ -1047,6 +1047,8 @@ var malformedSuites = []string{"", ":", "::", ":::", "OCRA-1", "OCRA-1:HOTP-SHA1
 
 func genC15(r *rng, n int, emit func(string)) {
 	emit("listsuites")
+	emit("listsuites_after_edit")
+	emit("listsuites")
 	names := otp.ListSuites()
 	sortStrings(names)
 	for _, nm := range names {
@@ -1658,6 +1660,7 @@ func genC11(r *rng, n int, emit func(string)) {
 
 func genC12(r *rng, n int, emit func(string)) {
 	emit("listsuites")
+	emit("listsuites_after_edit")
 	for i := 0; i < n; i++ {
 		layout := r.intn(6)
 		var inner string
